@@ -100,7 +100,7 @@ def special(signed, form, s):
     return (not signed) and ((s < 0) if form == "fwd" else (s > 0))
 
 
-def range_tables(rows8, tier, rng, rep, stats):
+def range_tables(rows8, rows8x, tier, rng, rep, stats):
     tabs = {tag: Table("c14r_" + tag) for tag, _, _, _ in L.RTYPES}
     # (R1) real 8-bit types: the rows TLC published for (w=8, pw=24) are replayed as they are
     for r in rows8:
@@ -111,7 +111,9 @@ def range_tables(rows8, tier, rng, rep, stats):
             n, m, ev = r["n"][i], r["m"][i], r["ev"][i]
             seq = L.ref_seq(form, a, b, s)
             om, oe = L.model_row(ty_o, form, a, b, s, L.CAP8)[1:]
-            for bk, ck in BODIES:
+            # quick: all bodies where a wrap event exists or the range is short, else the plain body + 2 others
+            bodies = BODIES if (tier == "thorough" or ev or oe or n <= 3) else [BODIES[0]] + rng.sample(BODIES[1:], 2)
+            for bk, ck in bodies:
                 want = list(L.apply_body(seq, bk, ck))
                 for bounds, ty, mm, ee in (("t", ty_t, m, ev), ("o", ty_o, om, oe)):
                     pred = None
@@ -122,6 +124,27 @@ def range_tables(rows8, tier, rng, rep, stats):
                         desc["cause"], desc["dev"], pred = hz["cause"], hz["dev"], hz["pred"]
                         stats["hazard_calls"] += 1
                     tabs[tag].add("r_%s_%s_%s" % (form, L.sname(s), bounds), [a, b, bk, ck], want, desc, pred)
+    # (R1e, thorough) every (start, stop) of the real 8-bit types: typed bounds; the plain body everywhere,
+    # all bodies where a wrap event exists or the range is short
+    seen = {(r["s"], r["form"], r["step"], r["start"], b) for r in rows8 for b in r["stops"]}
+    for r in rows8x:
+        tag = "schar" if r["s"] else "uchar"
+        ty_t = L.model_type(tag, "t")
+        form, s, a = r["form"], r["step"], r["start"]
+        for i, b in enumerate(r["stops"]):
+            if (r["s"], form, s, a, b) in seen:
+                continue
+            n, m, ev = r["n"][i], r["m"][i], r["ev"][i]
+            seq = L.ref_seq(form, a, b, s)
+            for bk, ck in (BODIES if (ev or n <= 3) else BODIES[:1]):
+                pred = None
+                desc = {"part": "range", "type": tag, "signed": bool(r["s"]), "bounds": "t", "form": form, "cause": "", "dev": False,
+                        "special": special(bool(r["s"]), form, s)}
+                if L.exposed(m, ev, bk, ck):
+                    _, hz = L.classify(ty_t, form, a, b, s, bk, ck, L.CAP8)
+                    desc["cause"], desc["dev"], pred = hz["cause"], hz["dev"], hz["pred"]
+                    stats["hazard_calls"] += 1
+                tabs[tag].add("r_%s_%s_t" % (form, L.sname(s)), [a, b, bk, ck], list(L.apply_body(seq, bk, ck)), desc, pred)
     # (R2) 32/64-bit types on the boundary grid: reference and hazard description from the transcription
     for tag, _, bits, signed in L.RTYPES:
         if bits == 8:
@@ -250,43 +273,62 @@ def view_item(view, item, idx):
 
 
 def container_table(cases, tier, rng, stats):
+    """Every published behaviour on every loop variant it applies to (behaviours with 3 acting
+    iterations -- thorough tier only -- on 3 of them, chosen by the seeded rng)."""
     tab = Table("c14cont")
     by_kind = collections.defaultdict(list)
+    for name, v in L.CONT_VARIANTS.items():
+        by_kind[v[0]].append((name,) + v[1:])
+    ca_by_kind = collections.defaultdict(list)
+    for name, (kind, it, idxs) in L.CARRAY_VARIANTS.items():
+        ca_by_kind[kind].append((name, idxs))
+    descs, args_cache = {}, {}
     for c in cases:
-        by_kind[c["kind"]].append(c)
-    for name, (kind, cls, ctype, it, target, log, cdecl, pdecl, view, path) in L.CONT_VARIANTS.items():
-        immutable = cls in ("tuple", "str", "bytes", "frozenset")
-        two = view in ("kv", "ek", "ei", "ech")
-        sent = "c" if "'c'" in pdecl else L.SENT      # value of the loop variable(s) before the loop
-        sent2 = ([L.SENT, "c"] if "v = 'c'" in pdecl else [L.SENT, L.SENT])
-        for c in by_kind[kind]:
-            mut = is_mut(c["script"])
-            if immutable and mut:
+        kind, n, script = c["kind"], c["n"], c["script"]
+        mut = is_mut(script)
+        esc = enc_script(script)
+        iters = [j for j, act in enumerate(script) if not (act and act[0][0] == "cont")]
+        applicable = []
+        for v in by_kind[kind]:
+            cls = v[1]
+            if mut and cls in ("tuple", "str", "bytes", "frozenset"):
                 continue
-            if cls in ("str", "bytes") and c["n"] > 5:
+            if cls in ("str", "bytes") and n > 5:
                 continue
-            iters = [j for j, act in enumerate(c["script"]) if not (act and act[0][0] == "cont")]
+            applicable.append(v)
+        if sum(1 for act in script if act) >= 3 and len(applicable) > 3:
+            applicable = rng.sample(applicable, 3)
+        for name, cls, ctype, it, target, log, cdecl, pdecl, view, path in applicable:
+            two = view in ("kv", "ek", "ei", "ech")
+            sent = "c" if "'c'" in pdecl else L.SENT      # value of the loop variable(s) before the loop
+            sent2 = ([L.SENT, "c"] if "v = 'c'" in pdecl else [L.SENT, L.SENT])
             vis = [view_item(view, x, j) for x, j in zip(c["vis"], iters)]
             if c["status"] in ("size", "keys"):
                 want = [vis, "E:RuntimeError"]
             else:
-                fin = view_item(view, c["fin"][0], len(c["script"]) - 1) if c["fin"] else (sent2 if two else sent)
+                fin = view_item(view, c["fin"][0], len(script) - 1) if c["fin"] else (sent2 if two else sent)
                 want = [vis, fin, c["status"] == "else"]
-            desc = {"part": "container", "kind": kind, "variant": name, "cls": cls, "path": path, "ref_status": c["status"],
-                    "mutates": mut,
-                    "high_byte": view == "by" and any(L.BYTES_ITEMS[x - 1] >= 128 for x in list(c["vis"]) + list(c["fin"]))}
-            tab.add(name, [container_arg(cls, kind, c["n"], view), enc_script(c["script"])], want, desc)
+            high = view == "by" and any(L.BYTES_ITEMS[x - 1] >= 128 for x in list(c["vis"]) + list(c["fin"]))
+            dk = (name, c["status"], mut, high)
+            if dk not in descs:
+                descs[dk] = {"part": "container", "kind": kind, "variant": name, "cls": cls, "path": path, "ref_status": c["status"],
+                             "mutates": mut, "high_byte": high}
+            ak = (cls, kind, n)
+            if ak not in args_cache:
+                args_cache[ak] = container_arg(cls, kind, n, view)
+            tab.add(name, [args_cache[ak], esc], want, descs[dk])
             stats["container_" + c["status"]] += 1
-    for name, (kind, it, idxs) in L.CARRAY_VARIANTS.items():
-        for c in by_kind[kind]:
-            if is_mut(c["script"]) or c["n"] != len(idxs):
-                continue
-            m = lambda i: L.CARR_VALS[idxs[i - 1]]
-            vis = [m(x) for x in c["vis"]]
-            fin = m(c["fin"][0]) if c["fin"] else L.SENT
-            tab.add(name, [{"list": L.CARR_VALS}, enc_script(c["script"])], [vis, fin, c["status"] == "else"],
-                    {"part": "container", "kind": kind, "variant": name, "cls": "carray", "path": "opt", "ref_status": c["status"],
-                     "mutates": False, "high_byte": False})
+        if not mut:
+            for name, idxs in ca_by_kind[kind]:
+                if n != len(idxs):
+                    continue
+                vis = [L.CARR_VALS[idxs[x - 1]] for x in c["vis"]]
+                fin = L.CARR_VALS[idxs[c["fin"][0] - 1]] if c["fin"] else L.SENT
+                dk = (name, c["status"], False, False)
+                if dk not in descs:
+                    descs[dk] = {"part": "container", "kind": kind, "variant": name, "cls": "carray", "path": "opt",
+                                 "ref_status": c["status"], "mutates": False, "high_byte": False}
+                tab.add(name, [{"list": L.CARR_VALS}, esc], [vis, fin, c["status"] == "else"], descs[dk])
     return tab
 
 
@@ -341,8 +383,10 @@ def run(tier, seed):
             core.die("TLC failed (%s): %s" % (r.violation or r.rc, r.cmd))
         tl[cfg] = r
         cov["tlc"].append(dict(r.summary(), config=cfg, published=len(r.printed)))
+    phase = {"tlc_wait": round(time.time() - t0, 1)}
     builds = {b.name: b for b in fb.result()}
     ex.shutdown()
+    phase["build_wait"] = round(time.time() - t0, 1)
 
     # ---- vacuity guard (model side only)
     rows = [r for cfg in range_cfgs for r in tl[cfg].printed]
@@ -386,21 +430,37 @@ def run(tier, seed):
                             "traces_validated_against_impl": 0, "samples": ["build failed: " + bad[0].name]}, time.time() - t0, violations=len(bad))
         return rc
 
+    phase["drift"] = round(time.time() - t0, 1)
     # ---- call tables
-    rows8 = [r for r in rows if r["w"] == 8 and r["pw"] > 8]
-    tabs = range_tables(rows8, tier, rng, rep, stats)
+    rows8 = [r for cfg in range_cfgs if not cfg.endswith("_e8") for r in tl[cfg].printed if r["w"] == 8 and r["pw"] > 8]
+    rows8x = [r for cfg in range_cfgs if cfg.endswith("_e8") for r in tl[cfg].printed]
+    tabs = range_tables(rows8, rows8x, tier, rng, rep, stats)
     tabs["cont"] = container_table(cases, tier, rng, stats)
     pdir = core.subdir("c14p")
     write_p_modules(pdir, CONST_TRIPLES)
+    phase["tables"] = round(time.time() - t0, 1)
 
-    def replay(tab):
-        b = builds[tab.module]
-        oc = L.run_table(os.path.dirname(b.so), tab.module, tab.calls, True, "c", timeout=1500)
-        op = L.run_table(pdir, tab.module, tab.calls, False, "p_" + tab.module, timeout=1500)
-        return oc, op
-    with concurrent.futures.ThreadPoolExecutor(max_workers=min(8, core.NCPU)) as ex2:
-        results = dict(zip(tabs, ex2.map(replay, tabs.values())))
+    CH = 100000     # calls per child
+    jobs = []
+    for key, tab in tabs.items():
+        for lo in range(0, max(1, len(tab.calls)), CH):
+            for comp in (True, False):
+                jobs.append((key, lo, comp))
 
+    def replay_chunk(job):
+        key, lo, comp = job
+        tab = tabs[key]
+        calls = tab.calls[lo:lo + CH]
+        if comp:
+            return L.run_table(os.path.dirname(builds[tab.module].so), tab.module, calls, True, "c%d" % lo, timeout=2400)
+        return L.run_table(pdir, tab.module, calls, False, "p_%s_%d" % (tab.module, lo), timeout=2400)
+    with concurrent.futures.ThreadPoolExecutor(max_workers=min(16, core.NCPU)) as ex2:
+        res = list(ex2.map(replay_chunk, jobs))
+    results = {key: ([], []) for key in tabs}
+    for (key, lo, comp), r in zip(jobs, res):
+        results[key][0 if comp else 1].extend(r)
+
+    phase["replay"] = round(time.time() - t0, 1)
     # ---- verdicts
     n_calls = n_nontriv = n_pred = n_pred_ok = 0
     distinct = set()
@@ -449,7 +509,7 @@ def run(tier, seed):
         "exhaustive": True,
         "calls_per_module": {tab.module: len(tab.calls) for tab in tabs.values()},
         "hazard_calls_with_model_prediction": n_pred, "hazard_calls_where_compiled_code_equals_prediction": n_pred_ok,
-        "stats": dict(stats),
+        "stats": dict(stats), "phase_end_s": phase,
         "rule": "range: every (start, stop) of the scaled 5/6-bit types x step -3..3 x forward/reversed in the model; on real code the "
                 "8-bit rows as published, 32/64-bit types on a boundary grid (reference and hazard description from the drift-checked "
                 "transcription), 8 break/continue bodies; containers: every behaviour TLC publishes, on every loop variant it applies to. "
